@@ -88,6 +88,11 @@ pub trait Layer: Sync {
         vec![]
     }
     fn eval(&self, case: &Self::Case) -> Verdict;
+    /// evaluation used while shrinking (layers whose subject keeps state between cases re-run the
+    /// candidate from a clean state here, so that the shrunk case reproduces on its own)
+    fn eval_for_shrink(&self, case: &Self::Case) -> Verdict {
+        self.eval(case)
+    }
     /// human-readable form, also the distinctness key
     fn render(&self, case: &Self::Case) -> String {
         format!("{:?}", case)
@@ -243,7 +248,7 @@ fn shrink<L: Layer, T: ValueTree<Value = L::Case> + ?Sized>(
         let failed = if ctx.excluded_class(layer, &cur).is_some() {
             None
         } else {
-            match layer.eval(&cur).outcome {
+            match layer.eval_for_shrink(&cur).outcome {
                 Outcome::Fail(d) => Some(d),
                 _ => None,
             }
@@ -293,7 +298,7 @@ pub fn shrink_structural<L: Layer>(layer: &L, ctx: &Ctx, case: L::Case, detail: 
                     if ctx.excluded_class(layer, c).is_some() {
                         return None;
                     }
-                    match layer.eval(c).outcome {
+                    match layer.eval_for_shrink(c).outcome {
                         Outcome::Fail(d) => Some(d),
                         _ => None,
                     }
